@@ -2428,6 +2428,10 @@ namespace awkward {
                                            ascending,
                                            stable);
 
+    if (branchdepth.first  ||  negaxis != branchdepth.second) {
+      IndexedArrayOf<int64_t, ISOPTION> fixed(Identities::none(), parameters_, outindex, out);
+      return fixed.simplify_optiontype();
+    }
     Index64 nextoutindex(parents_length);
     struct Error err3 = kernel::IndexedArray_local_preparenext_64(
         kernel::lib::cpu,   // DERIVE
@@ -2590,6 +2594,10 @@ namespace awkward {
                                               ascending,
                                               stable);
 
+    if (branchdepth.first  ||  negaxis != branchdepth.second) {
+      IndexedArrayOf<int64_t, ISOPTION> fixed(Identities::none(), util::Parameters(), outindex, out);
+      return fixed.simplify_optiontype();
+    }
     bool nulls_merged = false;
     if (isoption()) {
 
